@@ -85,6 +85,8 @@ def tree_st(draw, max_depth=3, max_fanout=3, typed=False, descriptions=False, mi
                 default = [gen_args.DEFAULTS[typ]]
             opts.append({"k": "opt", "long": ln, "short": sh, "mode": mode, "type": typ, "nullable": False,
                          "default": default, "desc": elem_desc()})
+            if sh and draw(st.integers(0, 3)) == 0:
+                opts[-1]["prefer"] = "long"  # shown as '--long (-s)'; both spellings stay valid
         args = []
         for _ in range(draw(st.integers(0, 2))):
             if has_multi or not argnames:
@@ -176,7 +178,7 @@ def make_config(kind, name="app", version="1.2.3"):
     return cfg
 
 
-def build_command_config(cmd, handler_for, path):
+def build_command_config(cmd, handler_for, path, skip=None):
     from clikit.api.args.format import Argument, Option
     from clikit.api.config.command_config import CommandConfig
 
@@ -208,23 +210,64 @@ def build_command_config(cmd, handler_for, path):
     if handler_for is not None:
         cc.set_handler(handler_for(mypath, cmd))
     for s in cmd["subs"]:
-        cc.add_sub_command_config(build_command_config(s, handler_for, mypath))
+        if skip is not None and mypath + [s["name"]] == skip:
+            continue
+        cc.add_sub_command_config(build_command_config(s, handler_for, mypath, skip))
     return cc
 
 
-def build_app(tree, config_kind="bare", handler_for=None, configure=None):
+def build_app(tree, config_kind="bare", handler_for=None, configure=None, late=None):
+    """late: path of one (plain, named) command that is left out of the configuration and added to the running
+    application afterwards (add_command / add_sub_command), after some command lines were already resolved."""
     from clikit.console_application import ConsoleApplication
 
     cfg = make_config(config_kind)
     cfg.set_terminate_after_run(False)
     cfg.set_catch_exceptions(False)  # a config error is a generator bug: let it surface as a harness error
     for c in tree["commands"]:
-        cfg.add_command_config(build_command_config(c, handler_for, []))
+        if late is not None and [c["name"]] == late:
+            continue
+        cfg.add_command_config(build_command_config(c, handler_for, [], late))
     if configure is not None:
         configure(cfg)
     app = ConsoleApplication(cfg)
+    if late is not None:
+        from clikit.args import ArgvArgs
+
+        for warm in ([], late[:-1], late[:-1] + ["zzz-no-such"], list(late)):
+            try:
+                app.resolve_command(ArgvArgs(["prog"] + warm))
+            except Exception:
+                pass
+        children = tree["commands"]
+        node = None
+        for n in late:
+            node = [c for c in children if c["name"] == n][0]
+            children = node["subs"]
+        cc = build_command_config(node, handler_for, late[:-1])
+        if len(late) == 1:
+            app.add_command(cc)
+        else:
+            find_real(app, late[:-1]).add_sub_command(cc)
     cfg.set_catch_exceptions(True)
     return app
+
+
+def late_candidates(tree):
+    """Paths of plain named commands whose ancestors are all enabled and named (they can be added late without
+    changing which command is the first default)."""
+    out = []
+
+    def walk(children, path):
+        for c in children:
+            if not (is_enabled(c) and is_named(c)):
+                continue
+            if c["kind"] == "plain":
+                out.append(path + [c["name"]])
+            walk(c["subs"], path + [c["name"]])
+
+    walk(tree["commands"], [])
+    return out
 
 
 def top_commands(tree, config_kind):
